@@ -235,7 +235,7 @@ def _run_1d(case, R, src):
             R.violation(f"1d-{ctor}-coupling-conservation-{where}", f"{label}/{ctor} level {level} method {method}: coarse state "
                         f"{axis_c[i]!r} receives rate {received[i]!r} from the coupling but the level-{level - 1} chain gives it "
                         f"{rates_c[i]!r} ({len(bad)} state(s) off)", wit)
-        if abs(to_none - (lam_f - lam_c)) > tol:
+        if not (abs(to_none - (lam_f - lam_c)) <= tol):
             R.violation(f"1d-{ctor}-coupling-conservation-no-jump", f"{label}/{ctor} level {level}: rate sent to 'no coarse jump' = {to_none!r}, "
                         f"expected intensity_f - intensity_c = {lam_f - lam_c!r}", wit)
         # ---- (b) coarse drift / diffusion -------------------------------------------------------------------------
@@ -248,10 +248,10 @@ def _run_1d(case, R, src):
         pd_now = float(np.asarray(cp.fine_process.process_drift()).reshape(-1)[0])
         slope_f = (fine[2] - fine[0]) / 2.5
         x0 = float(np.asarray(x0_prev).reshape(-1)[0])
-        if abs(slope_c - pd_prev) > 1e-10 * (1 + abs(pd_prev)) or abs(coarse[0] - x0) > 1e-12 * (1 + abs(x0)):
+        if not (abs(slope_c - pd_prev) <= 1e-10 * (1 + abs(pd_prev)) and abs(coarse[0] - x0) <= 1e-12 * (1 + abs(x0))):
             R.violation("1d-coarse-drift-not-previous-level", f"{label}/{ctor} level {level}: coarse deterministic path has slope "
                         f"{slope_c!r}, level-{level - 1} drift was {pd_prev!r} (fine drift now {pd_now!r})", wit)
-        if abs(slope_f - pd_now) > 1e-10 * (1 + abs(pd_now)):
+        if not (abs(slope_f - pd_now) <= 1e-10 * (1 + abs(pd_now))):
             R.violation("1d-fine-drift-not-current-level", f"{label}/{ctor} level {level}: fine deterministic slope {slope_f!r} vs {pd_now!r}", wit)
         R.hit("coarse_diffusion_checks")
         if float(cp.equivalent_diffusion_coefficient_coarse) != eq_prev or \
@@ -289,7 +289,7 @@ def _replay_1d(R, cp, kernel, axis_f, o_f, src, label, ctor, level, method, mode
         # same Brownian increments: increments proportional with the ratio of the two coefficients
         ef, ec = float(cp.equivalent_diffusion_coefficient_fine), float(cp.equivalent_diffusion_coefficient_coarse)
         inc_f, inc_c = np.diff(df_), np.diff(dc_)
-        if np.max(np.abs(inc_f * ec - inc_c * ef), initial=0.0) > 1e-12 * (1 + np.max(np.abs(inc_f), initial=0.0)) * (1 + ec):
+        if not (np.max(np.abs(inc_f * ec - inc_c * ef), initial=0.0) <= 1e-12 * (1 + np.max(np.abs(inc_f), initial=0.0)) * (1 + ec)):
             R.violation("1d-coupled-brownian-increments-differ", f"{label} level {level} ({mode}): fine and coarse diffusion increments are "
                         "not driven by the same Brownian increments", wit)
         if mode == "fixed":
@@ -321,7 +321,7 @@ def _replay_1d(R, cp, kernel, axis_f, o_f, src, label, ctor, level, method, mode
                 # nearest state (values are sums of states: rounding of the cumulated path)
                 st = min(index, key=lambda s: abs(s - v))
                 inc = index[st] - o_f
-                if abs(st - v) > 1e-9 * (1 + abs(v)):
+                if not (abs(st - v) <= 1e-9 * (1 + abs(v))):
                     ok = False
                     break
                 if inc % 2 == 0:
@@ -342,7 +342,7 @@ def _replay_1d(R, cp, kernel, axis_f, o_f, src, label, ctor, level, method, mode
             R.skip("replay-could-not-align-logged-variates")
             continue
         got = jc[1:-1]
-        if len(got) != len(coarse_expected) or np.max(np.abs(got - np.array(coarse_expected)), initial=0.0) > 1e-9 * (1 + np.max(np.abs(got), initial=0.0)):
+        if len(got) != len(coarse_expected) or not (np.max(np.abs(got - np.array(coarse_expected)), initial=0.0) <= 1e-9 * (1 + np.max(np.abs(got), initial=0.0))):
             R.violation("1d-coupled-coarse-path-not-image-of-fine-path", f"{label}/{ctor} level {level} method {method}: the coarse jump path "
                         f"{got[:6].tolist()} is not the running sum of the images of the fine increments {np.array(coarse_expected[:6]).tolist()}", wit)
         R.hit("coarse_paths_matched")
@@ -479,14 +479,14 @@ def _run_nd(case, R, src):
             R.violation(f"nd-coupling-conservation", f"{label}/{ctor} level {level} method {method}: coarse state {val} receives rate "
                         f"{got!r} from the coupling, the level-{level - 1} chain gives it {want!r} ({len(bad)} of {len(rates_c)} states off; "
                         f"relative to intensity: {abs(got - want) / lam_c:.2e})", wit)
-        if abs(to_none - (lam_f - lam_c)) > tol:
+        if not (abs(to_none - (lam_f - lam_c)) <= tol):
             R.violation("nd-coupling-conservation-no-jump", f"{label}/{ctor} level {level}: rate sent to 'no coarse jump' {to_none!r} vs "
                         f"{lam_f - lam_c!r}", wit)
         # coarse drift / diffusion
         R.hit("coarse_drift_checks")
         det = np.asarray(pms[-1].deterministic_path(np.array([0.0, 2.0])), dtype=float)
         slope_c = ((det[1][..., 1] - det[1][..., 0]) / 2.0).reshape(-1)
-        if np.max(np.abs(slope_c - pd_prev)) > 1e-10 * (1 + np.max(np.abs(pd_prev))):
+        if not (np.max(np.abs(slope_c - pd_prev)) <= 1e-10 * (1 + np.max(np.abs(pd_prev)))):
             R.violation("nd-coarse-drift-not-previous-level", f"{label}/{ctor} level {level}: coarse slope {slope_c.tolist()} vs recorded "
                         f"{pd_prev.tolist()}", wit)
         R.hit("coarse_diffusion_checks")
